@@ -757,7 +757,7 @@ def gen_lock(rng, n):
         for _ in range(rng.below(26)):
             p = rng.below(np + (1 if rng.chance(1, 10) else 0))
             k = rng.below(20)
-            toks.append(("s%d" if k < 13 else "!%d" if k == 13 else "a%d" if k < 16 else rng.choice("cwrpxkua") + "%d") % p)
+            toks.append(("s%d" if k < 13 else "!%d" if k == 13 else "a%d" if k < 16 else rng.choice("crpxkua") + "%d") % p)
         lines.append("run\t%d\t%s\t%s\t%s" % (np, ",".join(map(str, dead)) or "-", lock, ",".join(toks) or "-"))
     return lines[:n]
 
@@ -769,7 +769,7 @@ def conv_lock(line, st):
     if f == ["witness", "w2"]:
         return "CWitness2"
     if f[0] == "run" and len(f) == 5:
-        ev = {"c": "TryCreate", "w": "WritePid", "r": "Read", "p": "Probe", "x": "Remove", "k": "Wake", "u": "Unlock", "!": "Crash",
+        ev = {"c": "TryCreate", "r": "Read", "p": "Probe", "x": "Remove", "k": "Wake", "u": "Unlock", "!": "Crash",
               "a": "Cancel"}
         toks = []
         for t in csv("" if f[4] == "-" else f[4]):
